@@ -304,6 +304,10 @@ def as_bool(t: Term) -> Term:
         return mk_and([as_bool(x) for x in t[1]])
     if tag == "or":
         return mk_or([as_bool(x) for x in t[1]])
+    if tag == "call" and t[1] == "bool" and len(t[2]) == 1 and not t[3]:
+        return as_bool(t[2][0])
+    if tag == "c" and not isinstance(t[1], bool) and (t[1] is None or isinstance(t[1], (int, float, str))):
+        return C(bool(t[1]))
     return t
 
 
